@@ -7,6 +7,7 @@ import (
 	"encoding/json"
 	"flag"
 	"fmt"
+	"golang.org/x/tools/go/ssa"
 	"os"
 	"os/exec"
 	"path"
@@ -26,10 +27,10 @@ type TierCfg struct {
 }
 
 type PropCfg struct {
-	Level     string             `json:"level"`
-	Outside   []string           `json:"outside_claim"`
-	Assume    []string           `json:"assumptions"`
-	Tiers     map[string]TierCfg `json:"tiers"`
+	Level   string             `json:"level"`
+	Outside []string           `json:"outside_claim"`
+	Assume  []string           `json:"assumptions"`
+	Tiers   map[string]TierCfg `json:"tiers"`
 }
 
 type KnownFinding struct {
@@ -124,16 +125,22 @@ func runCmd(dir string, env []string, name string, args ...string) (string, erro
 	return string(out), err
 }
 
-var goEnv = []string{"GOFLAGS=-mod=mod", "GOPROXY=off", "GOSUMDB=off", "GOTOOLCHAIN=local"}
+func goEnvList() []string {
+	return []string{"GOFLAGS=" + goFlags(), "GOPROXY=off", "GOSUMDB=off", "GOTOOLCHAIN=local"}
+}
 
 // buildReplay regenerates the harness registry and builds the native replay binary
 // against /repo's current working tree.
 func buildReplay() (string, error) {
+	goEnv := goEnvList()
 	out, err := runCmd(verifDir, goEnv, "make", "-s", "registry")
 	if err != nil {
 		return "", fmt.Errorf("make registry: %v\n%s", err, out)
 	}
 	bin := filepath.Join(verifDir, "bin", "replay")
+	if altModDir != "" {
+		bin = filepath.Join(altModDir, "replay") // do not disturb the binary built from /repo
+	}
 	out, err = runCmd(verifDir, goEnv, "go", "build", "-o", bin, "./harness/cmd/replay")
 	if err != nil {
 		return "", fmt.Errorf("go build replay: %v\n%s", err, out)
@@ -242,6 +249,8 @@ func confirms(c *Candidate, r *ReplayResult) bool {
 		return r.Status == "panic" || r.Status == "crash"
 	case "hang":
 		return r.Status == "hang" || (r.Status == "crash" && strings.Contains(r.Detail, "stack"))
+	case "race":
+		return r.Status == "race"
 	case "alloc":
 		return r.Status == "crash" || r.Alloc > 64<<20 || (r.Status == "panic" && (strings.Contains(r.Detail, "makeslice") || strings.Contains(r.Detail, "out of memory") || strings.Contains(r.Detail, "out of range")))
 	}
@@ -263,7 +272,14 @@ type harnessEvidence struct {
 	Steps        int64                   `json:"ssa_instructions"`
 }
 
+func cleanupAlt() {
+	if altModDir != "" {
+		os.RemoveAll(altModDir)
+	}
+}
+
 func cmdCheck(args []string) int {
+	defer cleanupAlt()
 	fs := flag.NewFlagSet("check", flag.ExitOnError)
 	prop := fs.String("prop", "", "property id")
 	tier := fs.String("tier", "quick", "quick|thorough")
@@ -322,8 +338,35 @@ func cmdCheck(args []string) int {
 	}
 	deadline := t0.Add(budget)
 
-	var runs []*HarnessRun
+	// a harness name with '*' stands for every matching harness function (generated families)
+	var specs []HarnessSpec
 	for _, hs := range tc.Harnesses {
+		if !strings.Contains(hs.Name, "*") {
+			specs = append(specs, hs)
+			continue
+		}
+		var names []string
+		for _, p := range pg.hpkgs {
+			for name, m := range p.Members {
+				if _, isFn := m.(*ssa.Function); isFn && globMatch(hs.Name, name) {
+					names = append(names, name)
+				}
+			}
+		}
+		sort.Slice(names, func(i, j int) bool { return natLess(names[i], names[j]) })
+		if hs.MaxPaths > 0 && len(names) > hs.MaxPaths {
+			names = names[:hs.MaxPaths] // for families MaxPaths limits the number of members
+		}
+		for _, n := range names {
+			h2 := hs
+			h2.Name = n
+			h2.MaxPaths = 0
+			specs = append(specs, h2)
+		}
+	}
+	var runs []*HarnessRun
+	quiet := len(specs) > 40
+	for _, hs := range specs {
 		fn := pg.harness(hs.Name)
 		if fn == nil {
 			fmt.Printf("harness %s not found\n", hs.Name)
@@ -332,7 +375,9 @@ func cmdCheck(args []string) int {
 		run := &HarnessRun{HarnessSpec: hs, fn: fn}
 		explore(pg, run, engines, seed, deadline)
 		runs = append(runs, run)
-		fmt.Printf("  %-28s %v: %d paths %v in %.1fs%s\n", hs.Name, hs.Params, run.NPaths, run.Paths, run.Wall.Seconds(), map[bool]string{true: "  [TRUNCATED]", false: ""}[run.Truncated])
+		if !quiet || run.Truncated || run.Paths["unsupported"] > 0 {
+			fmt.Printf("  %-28s %v: %d paths %v in %.1fs%s\n", hs.Name, hs.Params, run.NPaths, run.Paths, run.Wall.Seconds(), map[bool]string{true: "  [TRUNCATED]", false: ""}[run.Truncated])
+		}
 	}
 
 	br := <-bch
@@ -374,6 +419,15 @@ func cmdCheck(args []string) int {
 	if err != nil {
 		fmt.Println("native replay failed:", err)
 		return 2
+	}
+	// shared-state findings are confirmed by running the harness natively with its
+	// pipelines on concurrent goroutines under the race detector
+	for i, c := range cands {
+		if c.Kind == "race" {
+			if raceReplay(c) {
+				results[i].Status, results[i].Ran = "race", true
+			}
+		}
 	}
 
 	// ---- classify candidate classes
@@ -525,6 +579,9 @@ func readJSON(p string, v interface{}) error {
 
 func writeReplay(prop string, c *Candidate) string {
 	dir := filepath.Join(verifDir, "replays", prop)
+	if altModDir != "" {
+		dir = filepath.Join(os.TempDir(), "gosym-alt-replays", prop)
+	}
 	os.MkdirAll(dir, 0o755)
 	data, _ := json.MarshalIndent(c, "", " ")
 	sum := sha1.Sum(data)
@@ -637,6 +694,9 @@ func buildEvidence(prop, tier string, seed int64, pc PropCfg, runs []*HarnessRun
 
 func writeEvidence(prop string, ev *evidenceOut) error {
 	dir := filepath.Join(verifDir, "evidence")
+	if altModDir != "" {
+		dir = filepath.Join(altModDir, "evidence") // runs against a scratch copy leave no evidence
+	}
 	os.MkdirAll(dir, 0o755)
 	data, err := json.MarshalIndent(ev.doc, "", " ")
 	if err != nil {
@@ -674,4 +734,35 @@ func cmdReplay(args []string) int {
 	}
 	fmt.Println("not reproduced")
 	return 0
+}
+
+var raceBin string
+
+// raceReplay builds (once) a race-enabled replay binary and runs one candidate.
+func raceReplay(c *Candidate) bool {
+	if raceBin == "" {
+		dir := filepath.Join(verifDir, "bin")
+		if altModDir != "" {
+			dir = altModDir
+		}
+		bin := filepath.Join(dir, "replay-race")
+		out, err := runCmd(verifDir, goEnvList(), "go", "build", "-race", "-o", bin, "./harness/cmd/replay")
+		if err != nil {
+			fmt.Println("race replay build failed:", err, out)
+			return false
+		}
+		raceBin = bin
+	}
+	dir, err := os.MkdirTemp("", "gosym-race-")
+	if err != nil {
+		return false
+	}
+	defer os.RemoveAll(dir)
+	file := filepath.Join(dir, "c.json")
+	data, _ := json.Marshal([]*Candidate{c})
+	os.WriteFile(file, data, 0o644)
+	cmd := exec.Command(raceBin, "-deadline", "20s", file)
+	cmd.Env = append(os.Environ(), "GORACE=halt_on_error=1 exitcode=66")
+	out, _ := cmd.CombinedOutput()
+	return strings.Contains(string(out), "DATA RACE")
 }
